@@ -42,6 +42,7 @@ type Cmd struct {
 	K    string `json:"k"`              // "p" probe | "run" nested pip:run | "try" pip:try
 	D    int    `json:"d,omitempty"`    // probe: >0 sleep that many microseconds, <0 that many Gosched calls
 	F    bool   `json:"f,omitempty"`    // probe: returns an error (after its end event)
+	S    bool   `json:"s,omitempty"`    // failing probe: calls Stop() on its scope before it returns the error (a command that gives up)
 	Body []Cmd  `json:"body,omitempty"` // run / try: the body script
 	Succ []Cmd  `json:"succ,omitempty"` // try: success handler (defined iff non-empty)
 	Fail []Cmd  `json:"fail,omitempty"` // try: fail handler
@@ -76,6 +77,7 @@ type probeInfo struct {
 	id    int
 	ctx   int
 	fail  bool
+	stop  bool // failing probe stops its scope before returning the error
 	setup bool // pseudo probe: a nested task whose sandbox fails at set-up
 	d     int
 	anc   []ancRef // enclosing (try, section) pairs, outermost first
@@ -139,7 +141,7 @@ func (b *builder) script(sb *strings.Builder, cmds []Cmd, ctx int, anc []ancRef,
 		id := b.newID()
 		switch c.K {
 		case "p":
-			b.ix.probes[id] = &probeInfo{id: id, ctx: ctx, fail: c.F, d: c.D, anc: append([]ancRef(nil), anc...)}
+			b.ix.probes[id] = &probeInfo{id: id, ctx: ctx, fail: c.F, stop: c.F && c.S, d: c.D, anc: append([]ancRef(nil), anc...)}
 			b.ix.probeIDs = append(b.ix.probeIDs, id)
 			fmt.Fprintf(sb, "%sp --id=%d\n", indent, id)
 		case "run":
@@ -469,6 +471,9 @@ func run(c Case) hx.Verdict {
 			ctx.IO().Out().Printf("probe %d\n", id)
 			rec.add(id, false)
 			if p.fail {
+				if p.stop {
+					ctx.Scope().Stop()
+				}
 				return errProbe
 			}
 			return nil
@@ -792,6 +797,12 @@ func judge(c Case, ix *index, log []event, complete bool, oc outcome) hx.Verdict
 	v.Label("ctx:" + c.Ctx)
 	if anyHandlerFailed {
 		v.Label("handler-failed")
+	}
+	for _, id := range ix.probeIDs {
+		if p := ix.probes[id]; p.stop && began(id) {
+			v.Label("failing-command-stopped-its-scope-first")
+			break
+		}
 	}
 	if ctxFailedBegan[0] {
 		v.Label("surrounding-scope-failed")
